@@ -3,6 +3,7 @@
 package llmsetup
 
 import (
+	"bytes"
 	"io/fs"
 	"os"
 	"path/filepath"
@@ -49,7 +50,8 @@ const (
 )
 
 // pathJoin / simpleName are uninterpreted: only the laws stated where they are used are assumed.
-//
+var _ = bytes.Equal
+
 //kvc:pure pathJoin
 func pathJoin(dir, name string) string { return filepath.Join(dir, name) }
 
@@ -198,6 +200,17 @@ func model_os_Rename(oldpath, newpath string) error {
 	vs.CrashPoint("Rename")
 	return nil
 }
+
+//kvc:model os.ReadFile
+func model_os_ReadFile(name string) ([]byte, error) {
+	if vs.NondetBool() || fsKind[name] != kindFile {
+		return nil, vs.SomeError()
+	}
+	return fsContent[name], nil
+}
+
+//kvc:model bytes.Equal
+func model_bytes_Equal(a, b []byte) bool { return vs.SameBytes(a, b) }
 
 //kvc:model os.Remove
 func model_os_Remove(name string) error {
